@@ -30,13 +30,54 @@ def fail(where, why):
 
 
 # ------------------------------------------------------------------ locating the methods
+TRANSLATED = {"Segment": ["length", "volume", "surface_area"], "Point3DWithDiam": ["distance_to"],
+              "Cell": ["get_actual_proximal", "get_segment_length", "get_segment_surface_area", "get_segment_volume"]}
+ALL_TRANSLATED = {m for ms in TRANSLATED.values() for m in ms}
+
+
 def class_funcs(body):
-    """name -> FunctionDef (the last definition wins, as in Python)"""
+    """name -> FunctionDef (the last definition wins, as in Python).  A class-level statement other than a def that binds
+    the name of a translated method (e.g.  get_actual_proximal = lru_cache(...)(get_actual_proximal)) is refused."""
     out = {}
     for st in body:
         if isinstance(st, ast.FunctionDef):
             out[st.name] = st
+        elif isinstance(st, (ast.Assign, ast.AugAssign, ast.AnnAssign)):
+            tg = st.targets if isinstance(st, ast.Assign) else [st.target]
+            for t in tg:
+                for x in ast.walk(t):
+                    if isinstance(x, ast.Name) and x.id in ALL_TRANSLATED:
+                        fail("class body", "%s is rebound by an assignment (%s)" % (x.id, ast.unparse(st)[:80]))
     return out
+
+
+def check_pure_def(cname, fn, want_property):
+    """the translated methods must be plain functions of the object's current data: no decorator except @property on the
+    Segment properties (a caching / memoising / wrapping decorator makes the result depend on the call history)"""
+    decs = [ast.unparse(d) for d in fn.decorator_list]
+    want = ["property"] if want_property else []
+    if decs != want:
+        fail("%s.%s" % (cname, fn.name), "decorators %s, expected %s (the method would no longer be a pure function of the "
+             "current data)" % (decs, want))
+    for x in ast.walk(fn):
+        if isinstance(x, (ast.Global, ast.Nonlocal)):
+            fail("%s.%s" % (cname, fn.name), "global/nonlocal statement")
+        if isinstance(x, (ast.Lambda, ast.FunctionDef)) and x is not fn:
+            fail("%s.%s" % (cname, fn.name), "nested function")
+
+
+def check_module_patches(tree):
+    """module-level  Cell.get_actual_proximal = ...  /  setattr(Cell, ...)  would replace a translated method"""
+    for st in tree.body:
+        if isinstance(st, (ast.ClassDef, ast.FunctionDef)):
+            continue
+        for x in ast.walk(st):
+            if isinstance(x, ast.Attribute) and isinstance(x.ctx, ast.Store) and isinstance(x.value, ast.Name) \
+                    and x.value.id in TRANSLATED and x.attr in TRANSLATED[x.value.id]:
+                fail("module", "%s.%s is assigned at module level" % (x.value.id, x.attr))
+            if isinstance(x, ast.Call) and isinstance(x.func, ast.Name) and x.func.id in ("setattr", "delattr") and x.args \
+                    and isinstance(x.args[0], ast.Name) and x.args[0].id in TRANSLATED:
+                fail("module", "%s(%s, ...) at module level" % (x.func.id, x.args[0].id))
 
 
 def module_math_names(tree):
@@ -72,7 +113,13 @@ def nml_classes():
     cl = {}
     for n in tree.body:
         if isinstance(n, ast.ClassDef):
-            cl[n.name] = class_funcs(n.body)
+            if n.name in TRANSLATED:
+                if n.decorator_list:
+                    fail(n.name, "class decorators %s" % [ast.unparse(d) for d in n.decorator_list])
+                if sum(1 for m in tree.body if isinstance(m, ast.ClassDef) and m.name == n.name) != 1:
+                    fail(n.name, "class defined more than once")
+            cl[n.name] = class_funcs(n.body) if n.name in TRANSLATED else {}
+    check_module_patches(tree)
     return cl, module_math_names(tree)
 
 
@@ -285,6 +332,7 @@ class SegLevel(NumEval):
         fn = self.funcs.get(name)
         if fn is None:
             fail(self.cname, "method %s not found" % name)
+        check_pure_def(self.cname, fn, want_property=(self.kind == "segment"))
         self.depth += 1
         if self.depth > 4:
             fail(self.cname, "property recursion")
@@ -434,6 +482,7 @@ class CellLevel(NumEval):
         fn = self.funcs.get(name)
         if fn is None:
             fail("Cell", "method %s not found" % name)
+        check_pure_def("Cell", fn, want_property=False)
         self.where = "Cell." + name
         a = fn.args
         params = [x.arg for x in a.args]
